@@ -59,7 +59,12 @@ def writes : WritesPolicy where
     (nm! "(*projLookupTable).SelectInto", [nm! "dest"]),
     (nm! "(*affineLookupTable).SelectInto", [nm! "dest"]),
     (nm! "(*nafLookupTable5).SelectInto", [nm! "dest"]),
-    (nm! "(*nafLookupTable8).SelectInto", [nm! "dest"])
+    (nm! "(*nafLookupTable8).SelectInto", [nm! "dest"]),
+    -- pure readers: they may store through nothing the caller can see, not even their receiver
+    (nm! "(*Point).Bytes", []), (nm! "(*Point).BytesMontgomery", []), (nm! "(*Point).Equal", []),
+    (nm! "(*Point).ExtendedCoordinates", []),
+    (nm! "(*Scalar).Bytes", []), (nm! "(*Scalar).Equal", []),
+    (nm! "(*field.Element).Bytes", []), (nm! "(*field.Element).Equal", []), (nm! "(*field.Element).IsNegative", [])
   ]
 
 /-! ## C19: whose results must be fresh -/
